@@ -114,8 +114,11 @@ func matrixCells() []cell {
 		for _, k := range []string{"Cmaj7", "H", "xyzzy Dbb", "c", "Dbb", "F##", "Bbbm"} {
 			cells = append(cells, cell{"malformed key", "flag", st, []string{"--key", k}, validYAML, "", "--key " + k})
 		}
-		for _, a := range [][]string{{"--bpm", "0"}, {"--velocity", ""}, {"--key", ""}, {"--meter", ""}} {
+		for _, a := range [][]string{{"--velocity", ""}, {"--key", ""}, {"--meter", ""}} {
 			cells = append(cells, cell{"no override", "flag", st, a, validYAML, "", strings.Join(a, " ")})
+		}
+		for _, a := range [][]string{{"--bpm", "0"}, {"--bpm=0"}, {"--bpm", "00"}} {
+			cells = append(cells, cell{"tempo 0", "flag", st, a, validYAML, "", strings.Join(a, " ")})
 		}
 	}
 	for _, k := range []string{"E#", "Abm", "G#"} {
